@@ -1,12 +1,25 @@
 #!/bin/bash
-# Translate the kernel of the repository (VERIF_REPO, default /repo) and do a full .vo build of
-# the development (never -vos). Serialised by a lock so that concurrent checks do not race.
-# exit status: 3 = translator refused the sources, otherwise make's status.
+# usage: build.sh [make targets]
+# Translate the kernel and the cache decisions of the repository (VERIF_REPO, default /repo) into
+# theories/Gen/, then do a full .vo build (never -vos) of the given targets, or of the whole
+# development when none is given (setup mode: exit 0 once make has run; the per-property builds
+# decide). Serialised by a lock so that concurrent checks do not race.
 cd "$(dirname "$0")"
 exec 9>.build.lock
 flock 9
 REPO="${VERIF_REPO:-/repo}"
-/venv/bin/python ../translator/py2gallina.py "$REPO" theories/Gen || exit 3
-{ cat _CoqProject.in; find theories -name '*.v' | sort; } > _CoqProject
-coq_makefile -f _CoqProject -o Makefile >/dev/null || exit 4
+mkdir -p theories/Gen
+/venv/bin/python ../translator/py2gallina.py "$REPO" theories/Gen > theories/Gen/kernel.status 2>&1; echo "exit $?" >> theories/Gen/kernel.status
+/venv/bin/python ../translator/py2gallina_cache.py "$REPO" theories/Gen > theories/Gen/cache.status 2>&1; echo "exit $?" >> theories/Gen/cache.status
+{ cat _CoqProject.in; find theories -name '*.v' | sort; } > _CoqProject.new
+cmp -s _CoqProject.new _CoqProject || { mv _CoqProject.new _CoqProject; coq_makefile -f _CoqProject -o Makefile >/dev/null || exit 4; }
+rm -f _CoqProject.new
+[ -f Makefile ] || coq_makefile -f _CoqProject -o Makefile >/dev/null || exit 4
+if [ $# -eq 0 ]; then
+  timeout 1500 make -k -j16
+  rc=$?
+  grep -h . theories/Gen/kernel.status theories/Gen/cache.status | grep -v "^exit 0" | head -5
+  [ $rc -ne 0 ] && echo "build.sh: some files did not build (make status $rc); the checks of the properties resting on them will say so"
+  exit 0
+fi
 timeout 900 make -k -j16 "$@"
